@@ -421,6 +421,11 @@ def builder_carry_over(ck, F, rid, prefixes):
                 continue
             for f, op in zip(a["fields"], st["rv"]["ops"]):
                 o = b.origin(op)
+                # a copy of a field is still that field: self.suffix.clone(), .to_owned(), .take()
+                hops = 0
+                while o[0] == "call" and o[2]["callee"].get("method") in ("clone", "to_owned", "to_string", "take", "cloned", "as_ref", "into") and o[2]["argv"] and hops < 4:
+                    o = b.origin(o[2]["argv"][0])
+                    hops += 1
                 if o[0] == "arg" and o[1] == 1 and o[2]:
                     g = o[2][0].get("n")
                     (carried if g == f else crossed).append((f, g))
